@@ -11,7 +11,7 @@ template <class T> static void run_lifecycle(Choice &c0, Ctx &cx)
     size_t start = c0.pos;
     bool nt = false; size_t consumed = 0;
     for (int r = 0; r < 3; ++r) {
-        Choice c(c0.d, c0.n); c.pos = start;
+        Choice c(c0.d, c0.n); c.pos = start; c.tail = c0.tail;
         HistState<T> H;
         Ctx sub = cx; sub.labels.clear(); sub.excluded.clear(); sub.dump = cx.dump && r == 0;
         unsigned char hf = fills[r][0], wf = fills[r][1];
